@@ -45,6 +45,11 @@ func runC01(c *core.Ctx) {
 		structural(c, p)
 	}
 	argv := gen.Argv(c.R, p, cfg)
+	if c.R.Intn(6) == 0 {
+		// a sentence of another spec over the same declarations: a near miss
+		argv = gen.Argv(c.R, gen.AltProg(c.R, p, cfg), cfg)
+		c.Inc("foreign_sentences")
+	}
 	if hasHelp(argv) {
 		c.Inc("skipped_help")
 		return
